@@ -96,6 +96,23 @@ class ExprMixin:
         return [(s, VStr(z3.simplify(t))) for s, t in outs]
 
     def ev_Lambda(self, e, st, cx):
+        # closures are modelled as capturing the current VALUES of their free variables; Python binds them late.  The two agree unless a
+        # free variable is re-bound after the closure was made -- the typical case is an iteration variable: refuse it (outside the subset)
+        fn = getattr(cx, "fn_node", None)
+        if fn is not None and not cx.spec:
+            a = e.args
+            bound = {x.arg for x in a.posonlyargs + a.args + a.kwonlyargs} | ({a.vararg.arg} if a.vararg else set()) | ({a.kwarg.arg} if a.kwarg else set())
+            free = {n.id for n in ast.walk(e.body) if isinstance(n, ast.Name) and isinstance(n.ctx, ast.Load)} - bound
+            itvars = set()
+            for n in ast.walk(fn):
+                if isinstance(n, (ast.For, ast.AsyncFor)) and any(x is e for x in ast.walk(n)):
+                    itvars |= {x.id for x in ast.walk(n.target) if isinstance(x, ast.Name)}
+                if isinstance(n, (ast.ListComp, ast.SetComp, ast.DictComp, ast.GeneratorExp)) and any(x is e for x in ast.walk(n)):
+                    for g in n.generators:
+                        itvars |= {x.id for x in ast.walk(g.target) if isinstance(x, ast.Name)}
+            if free & itvars:
+                raise Unsupported("lambda at line %d reads the iteration variable %s as a free variable (bound late in Python, early in this model)"
+                                  % (e.lineno, ", ".join(sorted(free & itvars))))
         return [(st, VFunc("lambda", e, env=[dict(st.env)] + cx.closure, qn="<lambda>", self_val=cx))]
 
     # ------------------------------------------------------------ names
